@@ -52,6 +52,8 @@ pub fn tok_of(op: &Operator) -> String {
         I32Load { memarg } => format!("i32.load:{}", memarg.offset),
         I32Store { memarg } => format!("i32.store:{}", memarg.offset),
         Select => "select".into(),
+        // without handlers only (what the `lower` family generates): a construct that nests and takes no special mode
+        TryTable { try_table } if try_table.catches.is_empty() => format!("try_table{}", bt(&try_table.ty)),
         other => format!("{other:?}").replace([' ', ',', ';', '~', '='], "_"),
     }
 }
